@@ -1,4 +1,4 @@
-"""C20 (L1 part): the constructors of the bus signatures, for ALL parameter values (pyvc; parameters are tagged values).
+"""C20 (L1 part): the constructors of all six signature classes, for ALL parameter values (pyvc; parameters are tagged values).
 
 wishbone.Signature.__init__   accepts iff addr_width is an int >= 0, data_width and granularity are in {8,16,32,64} (granularity defaults
                               to the data width), granularity <= data_width, and every feature converts; the optional-feature iterable is
@@ -9,6 +9,10 @@ wishbone.Signature.__init__   accepts iff addr_width is an int >= 0, data_width 
 csr.Signature.__init__        accepts iff both widths are positive ints; members addr Out(aw), r_data In(dw), r_stb Out(1), w_data Out(dw), w_stb Out(1)
 csr.Element.Signature.__init__  accepts iff width is an int >= 0 and the access mode converts; r_data In(w) + r_stb Out(1) iff readable,
                               w_data Out(w) + w_stb Out(1) iff writable, nothing else
+event.Source.Signature.__init__  accepts iff the trigger converts; converted mode kept; i Out(1), trg In(1)
+gpio.PinSignature.__init__    never refuses; i In(unsigned(1)), o Out(unsigned(1)), oe Out(unsigned(1))
+csr.FieldPort.Signature.__init__  accepts iff the shape is shape-like and the access converts; cast shape and converted access kept;
+                              r_data In(shape), r_stb Out(1), w_data Out(shape), w_stb Out(1) whatever the access mode
 Collaborators (wiring.Signature.__init__, In/Out, Feature(), Element.Access()) are recording stubs; what a member table means to
 wiring.connect() is Amaranth's (assumed; `connects` clause of C20 per configuration).
 """
@@ -223,4 +227,138 @@ def verify_element_signature_init():
     return fv
 
 
-ALL = [verify_wb_signature_init, verify_csr_signature_init, verify_element_signature_init]
+def verify_source_signature_init():
+    """event.Source.Signature.__init__(trigger="level"): accepts iff the trigger converts to a Source.Trigger; keeps the CONVERTED mode;
+    members i Out(1), trg In(1), nothing else"""
+    FILE = "amaranth_soc/event.py"
+    fv = FnVerifier("event.Source.Signature.__init__", [])
+    fn = find_def(FILE, "Source.Signature.__init__")
+    ex = Exec(FILE, "Source.Signature", axioms=[])
+    ex.class_files = {"Source.Signature": FILE}
+    common(ex)
+    CONV = z3.Bool("trigger_converts")
+    trig_arg = Opaque("trigger argument")
+    mode = SymObj("Trigger", "converted trigger")
+
+    def c_trigger(ex_, recv, a, k, q, node):
+        if not (len(a) == 1 and a[0] is trig_arg):
+            raise Unsupported("Source.Trigger() of something else than the `trigger` argument")
+        bad = q.fork(); bad.assume(z3.Not(CONV)); q.assume(CONV)
+        return [(mode, q), (Raised("ValueError"), bad)]
+    ex.contracts["Source.Trigger"] = c_trigger
+    self_ = SymObj("Source.Signature", "self")
+    q = Path(); q.env.update({"self": self_, "trigger": trig_arg})
+    outs = ex.run(fn, q)
+    fv.paths = len(outs)
+    n_ok = 0
+    for k, o in enumerate(outs):
+        p, lab = o.path, f"path{k}"
+        if o.kind == "raise":
+            fv.add("refuses-only-invalid-parameters", lab, p.pc, z3.Not(CONV))
+            continue
+        n_ok += 1
+        fv.add("accepts-only-valid-parameters", lab, p.pc, CONV)
+        fv.add("converted-trigger-mode-kept", lab, p.pc, z3.BoolVal(any(k_[0] == id(self_) and v is mode for k_, v in p.heap.items())))
+        T = z3.BoolVal(True)
+        check_members(fv, lab, p, {"i": (T, "Out", 1), "trg": (T, "In", 1)})
+    fv.add("cover:accepting-paths", "vacuity", [], z3.BoolVal(n_ok >= 1))
+    fv.add_engine_obligations(ex)
+    return fv
+
+
+def verify_pin_signature_init():
+    """gpio.PinSignature.__init__(): no parameters, never refuses; members i In(unsigned(1)), o Out(unsigned(1)), oe Out(unsigned(1)), nothing
+    else (`unsigned(w)` is represented by its width w)"""
+    FILE = "amaranth_soc/gpio.py"
+    fv = FnVerifier("gpio.PinSignature.__init__", [])
+    fn = find_def(FILE, "PinSignature.__init__")
+    ex = Exec(FILE, "PinSignature", axioms=[])
+    common(ex)
+    ex.contracts["unsigned"] = lambda ex_, recv, a, k, q, node: [(ex_.toint(a[0], node), q)]
+    self_ = SymObj("PinSignature", "self")
+    q = Path(); q.env.update({"self": self_})
+    outs = ex.run(fn, q)
+    fv.paths = len(outs)
+    n_ok = 0
+    for k, o in enumerate(outs):
+        p, lab = o.path, f"path{k}"
+        fv.add("never-refuses", lab, p.pc, z3.BoolVal(o.kind != "raise"))
+        if o.kind == "raise":
+            continue
+        n_ok += 1
+        fv.add("accepts-only-valid-parameters", lab, p.pc, z3.BoolVal(True))
+        T = z3.BoolVal(True)
+        check_members(fv, lab, p, {"i": (T, "In", 1), "o": (T, "Out", 1), "oe": (T, "Out", 1)})
+    fv.add("cover:accepting-paths", "vacuity", [], z3.BoolVal(n_ok >= 1))
+    fv.add_engine_obligations(ex)
+    return fv
+
+
+def verify_fieldport_signature_init():
+    """csr.FieldPort.Signature.__init__(shape, access): accepts iff the shape is shape-like and the access mode converts; keeps the CAST
+    shape and the CONVERTED access; members r_data In(cast shape), r_stb Out(1), w_data Out(cast shape), w_stb Out(1) - all four whatever
+    the access mode - and nothing else"""
+    FILE = "amaranth_soc/csr/reg.py"
+    fv = FnVerifier("csr.reg.FieldPort.Signature.__init__", [])
+    fn = find_def(FILE, "FieldPort.Signature.__init__")
+    ex = Exec(FILE, "FieldPort.Signature", axioms=[])
+    ex.class_files = {"FieldPort.Signature": FILE}
+    common(ex)
+    SHAPELIKE, CONV = z3.Bools("shape_is_shape_like access_converts")
+    shape_arg, access_arg = Opaque("shape argument"), Opaque("access argument")
+    cast = SymObj("Shape", "Shape.cast(shape)")
+    acc = SymObj("Access", "converted access")
+
+    def isinst(v, ty, node):
+        if v is shape_arg and ty.split(".")[-1] == "ShapeLike":
+            return SHAPELIKE
+        return None
+    ex.isinstance_hook = isinst
+
+    def c_cast(ex_, recv, a, k, q, node):
+        if not (len(a) == 1 and a[0] is shape_arg):
+            raise Unsupported("Shape.cast() of something else than the `shape` argument")
+        ex_.oblige("Shape.cast-only-of-a-shape-like-object", q, SHAPELIKE, node)
+        return [(cast, q)]
+    ex.contracts["Shape.cast"] = c_cast
+
+    def c_access(ex_, recv, a, k, q, node):
+        if not (len(a) == 1 and a[0] is access_arg):
+            raise Unsupported("FieldPort.Access() of something else than the `access` argument")
+        bad = q.fork(); bad.assume(z3.Not(CONV)); q.assume(CONV)
+        return [(acc, q), (Raised("ValueError"), bad)]
+    ex.contracts["FieldPort.Access"] = c_access
+    self_ = SymObj("FieldPort.Signature", "self")
+    q = Path(); q.env.update({"self": self_, "shape": shape_arg, "access": access_arg})
+    outs = ex.run(fn, q)
+    fv.paths = len(outs)
+    valid = z3.And(SHAPELIKE, CONV)
+    n_ok = 0
+    for k, o in enumerate(outs):
+        p, lab = o.path, f"path{k}"
+        if o.kind == "raise":
+            fv.add("refuses-only-invalid-parameters", lab, p.pc, z3.Not(valid))
+            continue
+        n_ok += 1
+        fv.add("accepts-only-valid-parameters", lab, p.pc, valid)
+        kept = [v for k_, v in p.heap.items() if k_[0] == id(self_)]
+        fv.add("cast-shape-and-converted-access-kept", lab, p.pc, z3.BoolVal(any(v is cast for v in kept) and any(v is acc for v in kept)))
+        got = p.ghost.get("members")
+        fv.add("member-table-handed-to-wiring", lab, p.pc, z3.BoolVal(got is not None))
+        if got is not None:
+            want = {"r_data": ("In", cast), "r_stb": ("Out", 1), "w_data": ("Out", cast), "w_stb": ("Out", 1)}
+            for name, (direction, shape) in want.items():
+                g = got.get(name)
+                if shape is cast:
+                    ok = z3.BoolVal(isinstance(g, tuple) and len(g) == 3 and g[0] == "member" and g[1] == direction and g[2] is cast)
+                else:
+                    ok = same_member(g, direction, shape) if g is not None else z3.BoolVal(False)
+                fv.add(f"member:{name}", lab, p.pc, ok)
+            fv.add("no-other-member", lab, p.pc, z3.BoolVal(set(got) <= set(want)))
+    fv.add("cover:accepting-paths", "vacuity", [], z3.BoolVal(n_ok >= 1))
+    fv.add_engine_obligations(ex)
+    return fv
+
+
+ALL = [verify_wb_signature_init, verify_csr_signature_init, verify_element_signature_init,
+       verify_source_signature_init, verify_pin_signature_init, verify_fieldport_signature_init]
